@@ -15,6 +15,21 @@ pub fn decode_literals(
     source: &[u8],
     target: &mut Vec<u8>,
 ) -> Result<u32, DecompressLiteralsError> {
+    #[cfg(feature = "verif_hooks")]
+    {
+        use crate::verif::{hit, Feat};
+        hit(match section.ls_type {
+            LiteralsSectionType::Raw => Feat::lit_raw,
+            LiteralsSectionType::RLE => Feat::lit_rle,
+            LiteralsSectionType::Compressed => Feat::lit_compressed,
+            LiteralsSectionType::Treeless => Feat::lit_treeless,
+        });
+        match section.num_streams {
+            Some(1) => hit(Feat::lit_1stream),
+            Some(4) => hit(Feat::lit_4streams),
+            _ => {}
+        }
+    }
     match section.ls_type {
         LiteralsSectionType::Raw => {
             target.extend(&source[0..section.regenerated_size as usize]);
